@@ -36,13 +36,23 @@
     the function constant `n$i`, `n$g`, `n$s` that `replace_placeholders` substitutes). Rests on
     `tauStar_substSym`, `completion_substSym` (tau* and completion commute with the substitution of
     closed terms for symbolic constants) and `sat_substSym_congr` (only the values matter).
-  Not proved: proof outlines inside C02 (their sequencing and soundness is C13).
+  * `external_sound_with_outline`: for EVERY accepted task (placeholders, proof outline with lemmas,
+    inductive lemmas and definitions of any direction): if none of the emitted problems - outline
+    problems and final problems - has a countermodel, then no interpretation satisfying the user-guide
+    assumptions witnesses a difference in a requested direction ("if every emitted problem is a theorem
+    the claimed relation holds"). With an outline the converse is not claimed (a false lemma has a
+    countermodel although the programs may agree). Rests on `Outline.assembled_outline_sound` - an
+    accepted outline does not change what is claimed: validity of the problems with the outline
+    implies validity of the problems without it - via C13 `outline_sound` and
+    `proofOutlineFrom_defsExt` (accepted definitions can be made true by re-interpreting only the
+    predicates they define).
 -/
 import AnthemModel.Model.External
 import AnthemModel.Props.C19
 import AnthemModel.Proofs.ExternalSem
 import AnthemModel.Proofs.ExternalSemSpec
 import AnthemModel.Proofs.ExternalSemPh
+import AnthemModel.Proofs.ExternalOutlineTask
 import AnthemModel.Proofs.PrivateUnique
 namespace Anthem.C02
 open Asp
@@ -155,6 +165,36 @@ theorem placeholder_reading (fc : FcI) :
 
 theorem tau_star_commutes_with_placeholder_values (ν : String → Pre) (p : Program) :
     tauStar (p.substSym ν) = (tauStar p).map (Formula.substSym (thetaOf ν)) := tauStar_substSym ν p
+
+/-- **C02, soundness for every accepted task** (placeholders and proof outline included). `left` is
+    the specification side as it enters the problems (the control-translated theory of a
+    specification program, or the specification's formulas with placeholders replaced); the
+    conclusion is the negation of the difference-witness condition of the theorems above. -/
+theorem external_sound_with_outline (t : ExternalTask) (hbyp : t.bypassTightness = false) (fuel : Nat)
+    (ps : List Problem) (h : externalProblems t fuel = .ok ps) :
+    ∃ (left : List SAnn) (ΓR : Theory) (po : ProofOutline),
+      (match t.specification with
+        | .inl PL => ∃ ΓL, theoryTranslate t t.phMap fuel PL = .ok ΓL ∧ left = controlTranslate t.userGuide.publicPreds ΓL
+        | .inr S => left = S.map (SAnn.replacePlaceholders t.phMap)) ∧
+      theoryTranslate t t.phMap fuel t.program = .ok ΓR ∧
+      (Outline.NoConflictAll (assembledGen t left t.ugAss ΓR) ((rightSide t ΓR).filter isSpec)
+          (left.filter lBwdConc) t.breakEq po →
+        (∀ P ∈ ps, ∀ J ρ, ¬ Refutes J ρ P) →
+        ∀ (J : Interp) (ρ : Asg),
+          ¬ ((∀ a ∈ t.ugAss, sat J a.formula ρ) ∧
+            (∀ a ∈ left, lStable a = true → sat J a.formula ρ) ∧
+            (∀ a ∈ rightSide t ΓR, a.role = .assumption → sat J a.formula ρ) ∧
+            (((t.direction = .universal ∨ t.direction = .forward) ∧
+                (∀ a ∈ left, lFwdPrem a = true → sat J a.formula ρ) ∧
+                ¬ Stable (t.program.substSym (phNu t.phMap J.fc)) t.userGuide.inputs
+                  (restrictTo (ext t.program.preds t.userGuide.inputs)
+                    (renamedInterp (t.specPrivate.filter (· ∈ t.progPrivate)) J.pred)) J.fc) ∨
+             ((t.direction = .universal ∨ t.direction = .backward) ∧
+                Stable (t.program.substSym (phNu t.phMap J.fc)) t.userGuide.inputs
+                  (restrictTo (ext t.program.preds t.userGuide.inputs)
+                    (renamedInterp (t.specPrivate.filter (· ∈ t.progPrivate)) J.pred)) J.fc ∧
+                ∃ a ∈ left, lBwdConc a = true ∧ ¬ sat J a.formula ρ)))) :=
+  Outline.external_outline_sound t hbyp fuel ps h
 
 /-- which annotated formulas of a specification play which part (read off `assemble`) -/
 theorem specification_roles (a : SAnn) :
